@@ -135,6 +135,19 @@ type Typestate struct {
 	linkOK map[*ssa.BasicBlock]map[ssa.Value]bool
 	// IgnoreStores: field stores do not change the abstract value ("status as loaded", refined by guards only)
 	IgnoreStores bool
+	// flagState[φ][v]: the joined state at the point a boolean flag φ is defined, over the valuations in which it is v
+	flagState map[*ssa.Phi]map[bool]*tsState
+}
+
+// FlagStatus: the possible values of alloc's field at the time the boolean flag ph was computed, given that the
+// flag came out as val (e.g. `isCandidate := s == Active || s == Pending` being false means s ∉ {Active, Pending}).
+func (ts *Typestate) FlagStatus(ph *ssa.Phi, val bool, a *ssa.Alloc) (EnumSet, bool) {
+	m, ok := ts.flagState[ph]
+	if !ok || m[val] == nil {
+		return 0, false
+	}
+	s, ok := m[val].field[a]
+	return s, ok
 }
 
 func isFieldAddrOf(addr ssa.Value, structT *types.Named, field string) *ssa.Alloc {
@@ -408,6 +421,27 @@ func (p *Prog) analyzeTypestate(fn *ssa.Function, structT *types.Named, field st
 			}
 		}
 	}
+	ts.flagState = map[*ssa.Phi]map[bool]*tsState{}
+	for _, ph := range flags {
+		m := map[bool]*tsState{}
+		for key, st := range parts[ph.Block()] {
+			var v bool
+			switch key[flagIdx[ph]] {
+			case 'T':
+				v = true
+			case 'F':
+				v = false
+			default:
+				continue
+			}
+			if m[v] == nil {
+				m[v] = st.clone()
+			} else {
+				m[v].join(st)
+			}
+		}
+		ts.flagState[ph] = m
+	}
 	// the state before each instruction: the join over all valuations that reach it
 	for _, b := range fn.Blocks {
 		for _, key := range sortedKeys(parts[b]) {
@@ -551,6 +585,24 @@ func (ts *Typestate) refine(cond ssa.Value, taken bool, st *tsState) {
 			}
 		}
 	}
+}
+
+// EdgeOut returns the possible values of alloc's field on the i-th outgoing edge of block b (the block's
+// joined in-state, its instructions, then the refinement of the branch condition for that edge).
+func (ts *Typestate) EdgeOut(b *ssa.BasicBlock, i int, a *ssa.Alloc) (EnumSet, bool) {
+	in, ok := ts.in[b]
+	if !ok || len(b.Instrs) == 0 {
+		return 0, false
+	}
+	st := in.clone()
+	for _, ins := range b.Instrs {
+		ts.transfer(ins, st)
+	}
+	if iff, isIf := b.Instrs[len(b.Instrs)-1].(*ssa.If); isIf {
+		ts.refine(iff.Cond, i == 0, st)
+	}
+	s, ok := st.field[a]
+	return s, ok
 }
 
 // At returns the possible values of alloc's field immediately before instruction in.
